@@ -21,14 +21,14 @@ CHECKS = {
         design_ref="DESIGN.md section 5, C18",
         technique="Coq proof (refinement of a history-based spec by the phase machine) + exhaustive small-scope correspondence against the binary"),
     "C07": dict(
-        category="other",
-        text="Model LexUpdate.lex_update transcribes lexer::update (every panic site explicit). Proved so far: the bounded instance "
-             "C07_small_scope (kernel VM sweep over all texts <= 2 x all splits x insertions <= 1); the unbounded theorem "
-             "C07_full_statement (update = lex of the new text with a truthful window, for all texts and changes) is being proved "
-             "in Proofs/LexUpdateProofs.v. The model is tied to the code by exhaustive small-scope and random differential runs; "
-             "an implementation oracle (update == lex, window truthfulness) runs exhaustively over 11.6M (quick) / 280M (thorough) changes.",
+        category="proof",
+        text="Theorem C07_update_is_lex, for ALL texts and ALL single changes: the model of lexer::update (every panic site explicit) "
+             "returns exactly the fresh token stream of the new text with a truthful change window; C07_locality justifies the "
+             "look-ahead table kind by kind. The model is tied to spl_frontend::lexer::update by exhaustive small-scope and random "
+             "differential runs (extracted judge + coqc VM judge); an implementation oracle (update == lex, window truthfulness, "
+             "chained histories) runs over 11.6M (quick) / 280M (thorough) changes to search for failing inputs.",
         design_ref="DESIGN.md section 5, C07",
-        technique="Coq model of lexer::update + kernel-computed bounded theorem + correspondence; unbounded proof in progress"),
+        technique="Coq proof (locality, prefix stability, resynchronisation) over a Gallina model of lexer::update + correspondence"),
     "C06": dict(
         category="proof",
         text="Theorems over all Unicode texts (Props/C06.v): the lexer model is total, its output tiles the text "
